@@ -91,6 +91,20 @@ def merge_stats(results):
     return m
 
 
+def pick_samples(samples, n=40):
+    """At most n samples, one per instantiation first, then round-robin."""
+    by = {}
+    for s in samples:
+        by.setdefault(s.get("inst", ""), []).append(s)
+    out, rnd = [], 0
+    while len(out) < n and any(len(v) > rnd for v in by.values()):
+        for k in sorted(by):
+            if len(by[k]) > rnd and len(out) < n:
+                out.append(by[k][rnd])
+        rnd += 1
+    return out
+
+
 def violation(pid, replay_path):
     core.say(f"VIOLATION property={pid} replay={replay_path}")
 
@@ -184,7 +198,7 @@ def check(pid, tier, seed, hs, level, rule, assumptions=(), extra_cov=None, min_
         "evaluations": m["evaluations"] + nreg,
         "distinct_nontrivial": m["distinct_nontrivial"],
         "rule": rule,
-        "samples": m["samples"][:40],
+        "samples": pick_samples(m["samples"]),
         "labels": m["labels"],
         "per_instantiation": m["per_inst"],
         "per_instantiation_nontrivial": m["per_inst_nontrivial"],
